@@ -138,6 +138,10 @@ package node
 //@   ensures !isRejectErr(result)
 //@   ensures result == nil ==> balNonNeg(Lbal)
 //@
+//@ // every batch held at or after the last rated block before h has not been executed yet
+//@ spec func heldUnexecuted(hold map[factom.Bytes32]int, rel set[factom.Bytes32], rated set[int], h int) bool =
+//@     forall e factom.Bytes32 :: 0 <= hold[e] && hold[e] < h && (forall x int :: hold[e] < x && x < h ==> !rated[x]) ==> !rel[e]
+//@
 //@ func (*Pegnetd).ApplyTransactionBatchesInHolding
 //@   props C06 C07 C13 C17 C10 C16
 //@   requires @wellformed d.Pegnet != nil && currentHeight > 0
@@ -145,7 +149,7 @@ package node
 //@   requires @nonneg balNonNeg(Lbal)
 //@   requires @status statusInv(Lexec, Lrel, Lhist) && holdInv(Lhold, Lhist)
 //@   requires @burn_parses validFA(GlobalBurnAddress)
-//@   requires @held_in_window_unexecuted forall h factom.Bytes32 :: lastRatedBefore(Lrated, currentHeight) <= Lhold[h] && Lhold[h] < currentHeight ==> !Lrel[h]
+//@   requires @held_in_window_unexecuted heldUnexecuted(Lhold, Lrel, Lrated, currentHeight)
 //@   modifies Lbal, Lsupply, Lrel, Lexec, LtoAmt, Lrefund, LbankUsed, LbankReq, d.LastAveragesData, d.LastAverages, d.LastAveragesHeight
 //@   ensures @status err == nil ==> statusInv(Lexec, Lrel, Lhist)
 //@   ensures @never_negative err == nil ==> balNonNeg(Lbal)
@@ -168,7 +172,10 @@ package node
 //@ func (*Pegnetd).GradeS
 //@   props C08 C11
 //@   nullable block
-//@   requires @wellformed d.Pegnet != nil && (block != nil ==> block.ChainID != nil && block.Height <= 2147483647 && (forall k int :: 0 <= k && k < len(block.Entries) ==> block.Entries[k].Hash != nil))
+//@   requires @pegnet d.Pegnet != nil
+//@   requires @chain_id block != nil ==> block.ChainID != nil
+//@   requires @height_fits block != nil ==> block.Height <= 2147483647
+//@   requires @entries_fetched block != nil ==> (forall k int :: 0 <= k && k < len(block.Entries) ==> block.Entries[k].Hash != nil)
 //@   requires @activations activationsOrdered()
 //@   ensures @no_block block == nil ==> result0 == nil && result1 == nil
 //@   ensures @wrong_chain block != nil && *block.ChainID != config.SPRChain ==> result1 != nil
@@ -179,7 +186,10 @@ package node
 //@ func (*Pegnetd).Grade
 //@   props C08 C11
 //@   nullable block
-//@   requires @wellformed d.Pegnet != nil && (block != nil ==> block.ChainID != nil && block.Height <= 2147483647 && (forall k int :: 0 <= k && k < len(block.Entries) ==> block.Entries[k].Hash != nil))
+//@   requires @pegnet d.Pegnet != nil
+//@   requires @chain_id block != nil ==> block.ChainID != nil
+//@   requires @height_fits block != nil ==> block.Height <= 2147483647
+//@   requires @entries_fetched block != nil ==> (forall k int :: 0 <= k && k < len(block.Entries) ==> block.Entries[k].Hash != nil)
 //@   requires @activations activationsOrdered()
 //@   ensures @no_block block == nil ==> result0 == nil && result1 == nil
 //@   ensures @wrong_chain block != nil && *block.ChainID != config.OPRChain ==> result1 != nil
@@ -201,11 +211,14 @@ package node
 //@ func (*Pegnetd).ApplyGradedOPRBlock
 //@   props C11 C04
 //@   requires @wellformed d.Pegnet != nil && gradedBlock != nil
+//@   requires @nonneg balNonNeg(Lbal)
 //@   modifies Lbal, Lsupply
+//@   ensures @never_negative err == nil ==> balNonNeg(Lbal)
 //@   ensures @winners_paid_exactly err == nil ==> Lbal == payOPR(old(Lbal), oprWinners(gradedBlock), len(oprWinners(gradedBlock)))
 //@   ensures @supply err == nil ==> Lsupply == upd(old(Lsupply), fat2.PTickerPEG, old(Lsupply)[fat2.PTickerPEG] + paidOPR(oprWinners(gradedBlock), len(oprWinners(gradedBlock))))
 //@   ensures @error_is_not_a_reject_code !isRejectErr(err)
 //@   loop 1 invariant @range 0 <= iter && iter <= len(winners) && winners == oprWinners(gradedBlock)
+//@   loop 1 invariant @nonneg balNonNeg(Lbal)
 //@   loop 1 invariant @paid Lbal == payOPR(old(Lbal), oprWinners(gradedBlock), iter)
 //@   loop 1 invariant @supply Lsupply == upd(old(Lsupply), fat2.PTickerPEG, old(Lsupply)[fat2.PTickerPEG] + paidOPR(oprWinners(gradedBlock), iter))
 //@   loop 1 preserves old
@@ -213,11 +226,110 @@ package node
 //@ func (*Pegnetd).ApplyGradedSPRBlock
 //@   props C11 C04
 //@   requires @wellformed d.Pegnet != nil && gradedSPRBlock != nil
+//@   requires @nonneg balNonNeg(Lbal)
 //@   modifies Lbal, Lsupply
+//@   ensures @never_negative err == nil ==> balNonNeg(Lbal)
 //@   ensures @winners_paid_exactly err == nil ==> Lbal == paySPR(old(Lbal), sprWinners(gradedSPRBlock), len(sprWinners(gradedSPRBlock)))
 //@   ensures @supply err == nil ==> Lsupply == upd(old(Lsupply), fat2.PTickerPEG, old(Lsupply)[fat2.PTickerPEG] + paidSPR(sprWinners(gradedSPRBlock), len(sprWinners(gradedSPRBlock))))
 //@   ensures @error_is_not_a_reject_code !isRejectErr(err)
 //@   loop 1 invariant @range 0 <= iter && iter <= len(winners) && winners == sprWinners(gradedSPRBlock)
+//@   loop 1 invariant @nonneg balNonNeg(Lbal)
 //@   loop 1 invariant @paid Lbal == paySPR(old(Lbal), sprWinners(gradedSPRBlock), iter)
 //@   loop 1 invariant @supply Lsupply == upd(old(Lsupply), fat2.PTickerPEG, old(Lsupply)[fat2.PTickerPEG] + paidSPR(sprWinners(gradedSPRBlock), iter))
 //@   loop 1 preserves old
+//@
+//@ // ---- one block (C02 C07 C10 C12 C14 C15) -----------------------------------------------------------
+//@ // Contracts of callees that are not (yet) verified themselves are marked trusted: assumed here, listed in the evidence.
+//@ func isDone
+//@   trusted
+//@   pure
+//@
+//@ func multiFetch
+//@   trusted
+//@   modifies eblock.Entries, eblock.KeyMR, eblock.PrevKeyMR
+//@   ensures !isRejectErr(result)
+//@   ensures result == nil ==> (forall k int :: 0 <= k && k < len(eblock.Entries) ==> eblock.Entries[k].Hash != nil)
+//@   ensures envHealthy ==> result == nil
+//@
+//@ func (*Pegnetd).MintTokensForBalance
+//@   trusted
+//@   requires @only_at_activation height == config.V204EnhanceActivation
+//@   modifies Lbal, Lsupply
+//@   ensures !isRejectErr(result)
+//@   ensures result == nil ==> balNonNeg(Lbal)
+//@
+//@ func (*Pegnetd).NullifyMintedTokens
+//@   trusted
+//@   requires @only_at_activation height == config.V204BurnMintedTokenActivation
+//@   modifies Lbal, Lsupply
+//@   ensures !isRejectErr(result)
+//@   ensures result == nil ==> balNonNeg(Lbal)
+//@
+//@ func (*Pegnetd).GetAssetRates
+//@   trusted
+//@   pure
+//@   ensures !isRejectErr(result1)
+//@
+//@ func (*Pegnetd).GetAssetRatesV0
+//@   trusted
+//@   pure
+//@   ensures !isRejectErr(result1)
+//@
+//@ func (*Pegnetd).SnapshotPayouts
+//@   trusted
+//@   requires @cadence height >= config.V20HeightActivation && height % 144 == 0 && rates != nil
+//@   modifies Lbal, Lsupply
+//@   ensures !isRejectErr(result)
+//@   ensures result == nil ==> balNonNeg(Lbal)
+//@
+//@ func (*Pegnetd).SyncBank
+//@   trusted
+//@   modifies LbankPresent, LbankAmt, LbankUsed, LbankReq
+//@   ensures !isRejectErr(result)
+//@
+//@ func (*Pegnetd).ApplyFactoidBlock
+//@   trusted
+//@   modifies Lbal, Lsupply
+//@   ensures !isRejectErr(result)
+//@   ensures result == nil ==> balNonNeg(Lbal)
+//@
+//@ func (*Pegnetd).DevelopersPayouts
+//@   trusted
+//@   requires @cadence height >= config.V20DevRewardsHeightActivation && height % 144 == 0
+//@   modifies Lbal, Lsupply
+//@   ensures !isRejectErr(result)
+//@   ensures result == nil ==> balNonNeg(Lbal)
+//@
+//@ func (*Pegnetd).SyncBlock
+//@   props C02 C07 C10 C12 C14 C15
+//@   requires @wellformed d.Pegnet != nil && d.Sync != nil && height > 0 && height == d.Sync.Synced + 1 && height <= 2147483647
+//@   requires @activations activationsOrdered() && config.V204EnhanceActivation != config.V204BurnMintedTokenActivation
+//@   requires @nonneg balNonNeg(Lbal)
+//@   requires @status statusInv(Lexec, Lrel, Lhist) && holdInv(Lhold, Lhist)
+//@   requires @held_in_window_unexecuted heldUnexecuted(Lhold, Lrel, Lrated, height)
+//@   requires @burn_parses validFA(GlobalBurnAddress)
+//@   modifies *
+//@   let devDue = height >= config.V20DevRewardsHeightActivation && height % 144 == 0
+//@   // no block is reported as applied with an ignored failure: the ledger invariants hold whenever nil is returned
+//@   ensures @never_negative{C10} err == nil ==> balNonNeg(Lbal)
+//@   ensures @status{C10} err == nil ==> statusInv(Lexec, Lrel, Lhist)
+//@   ensures @never_negative_when_no_dev_payout_due err == nil && !devDue ==> balNonNeg(Lbal)
+//@   ensures @status_when_no_dev_payout_due err == nil && !devDue ==> statusInv(Lexec, Lrel, Lhist)
+//@   // gating of the scheduled steps (each at most once, at exactly its heights)
+//@   ensures @mint_iff err == nil ==> ((calls("MintTokensForBalance") == old(calls("MintTokensForBalance")) + 1) <==> height == config.V204EnhanceActivation) && calls("MintTokensForBalance") <= old(calls("MintTokensForBalance")) + 1
+//@   ensures @nullify_mint_iff err == nil ==> ((calls("NullifyMintedTokens") == old(calls("NullifyMintedTokens")) + 1) <==> height == config.V204BurnMintedTokenActivation) && calls("NullifyMintedTokens") <= old(calls("NullifyMintedTokens")) + 1
+//@   ensures @dev_rewards_iff{C10,C15} err == nil ==> ((calls("DevelopersPayouts") == old(calls("DevelopersPayouts")) + 1) <==> devDue) && calls("DevelopersPayouts") <= old(calls("DevelopersPayouts")) + 1
+//@   ensures @dev_rewards_iff_unless_rate_filter_failed err == nil && !((calls("GetAssetRates") + calls("GetAssetRatesV0") > old(calls("GetAssetRates") + calls("GetAssetRatesV0"))) && calls("InsertRates") == old(calls("InsertRates"))) ==> ((calls("DevelopersPayouts") == old(calls("DevelopersPayouts")) + 1) <==> devDue)
+//@   ensures @dev_rewards_only_when_due calls("DevelopersPayouts") <= old(calls("DevelopersPayouts")) + 1 && (calls("DevelopersPayouts") > old(calls("DevelopersPayouts")) ==> devDue)
+//@   ensures @fct_burns_iff err == nil && !((calls("GetAssetRates") + calls("GetAssetRatesV0") > old(calls("GetAssetRates") + calls("GetAssetRatesV0"))) && calls("InsertRates") == old(calls("InsertRates"))) ==> ((calls("ApplyFactoidBlock") == old(calls("ApplyFactoidBlock")) + 1) <==> height < config.V20HeightActivation)
+//@   ensures @fct_burns_only_before_v20 calls("ApplyFactoidBlock") <= old(calls("ApplyFactoidBlock")) + 1 && (calls("ApplyFactoidBlock") > old(calls("ApplyFactoidBlock")) ==> height < config.V20HeightActivation)
+//@   ensures @snapshot_only_on_cadence calls("SnapshotPayouts") <= old(calls("SnapshotPayouts")) + 1
+//@   ensures @rates_at_most_once calls("InsertRates") <= old(calls("InsertRates")) + 1
+//@   // a block without rates executes no pending conversions
+//@   ensures @holding_needs_rates calls("ApplyTransactionBatchesInHolding") > old(calls("ApplyTransactionBatchesInHolding")) ==> calls("InsertRates") == old(calls("InsertRates")) + 1 && height >= config.TransactionConversionActivation
+//@   ensures @txblock_needs_activation calls("ApplyTransactionBlock") > old(calls("ApplyTransactionBlock")) ==> height >= config.TransactionConversionActivation
+//@   ensures @spr_rewards_only_v20 calls("ApplyGradedSPRBlock") > old(calls("ApplyGradedSPRBlock")) ==> height >= config.V20HeightActivation
+//@
+//@ // the holders' snapshot is taken before any balance change of the block (C14)
+//@ site-requires (*Pegnetd).SyncBlock | (*Pegnetd).SnapshotPayouts | 1
+//@   requires @snapshot_before_balance_changes calls("ApplyTransactionBatchesInHolding") == old(calls("ApplyTransactionBatchesInHolding")) && calls("ApplyTransactionBlock") == old(calls("ApplyTransactionBlock")) && calls("ApplyGradedOPRBlock") == old(calls("ApplyGradedOPRBlock")) && calls("ApplyGradedSPRBlock") == old(calls("ApplyGradedSPRBlock")) && calls("DevelopersPayouts") == old(calls("DevelopersPayouts")) && calls("ApplyFactoidBlock") == old(calls("ApplyFactoidBlock"))
